@@ -15,6 +15,7 @@
 -/
 import MediaSan.Lemmas.Mp4Header
 import MediaSan.Mp4.Sanitize
+import MediaSan.Generated.Mp4Consts
 import MediaSan.Lemmas.MetaWalk
 import MediaSan.Spec.Mp4Rules
 namespace MediaSan.Props.C02
@@ -302,5 +303,12 @@ example : (match Mp4.sanitize (Stream.ofBytes tinyRemux) .seekable {} with
     | .ok r => r.metadata.isSome && decide (r.data = ⟨20, 12⟩) | _ => false) = true := by decide +kernel
 
 end Structure
+
+/-- the padding constants the model uses are the code's (extracted from `PAD_HEADER_SIZE` / `MAX_PAD_SIZE` in
+    mp4san/src/lib.rs on every run).  No feasible input separates a wrong upper bound - the padding box would be
+    4 GiB long - so this obligation is the tie for it. -/
+theorem C02_pad_constants :
+    MediaSan.Generated.mp4PadHeaderSize = MediaSan.Mp4.padHeaderSize ∧
+    MediaSan.Generated.mp4MaxPadSize = MediaSan.Mp4.maxPadSize := by decide
 
 end MediaSan.Props.C02
